@@ -59,6 +59,9 @@ def cases(rng, tier):
         for bs in masks:
             add(a, {"kind": "mask", "bs": bs, "rl": False})
             add(a, {"kind": "mask", "bs": bs, "rl": True})
+            # the same mask obtained by comparing a run-length array with a scalar (`x[x > 0]`): such a mask keeps the run
+            # boundaries of its source, so neighbouring runs may hold the same boolean
+            add(a, {"kind": "mask", "bs": bs, "rl": True, "lv": [rng.randint(1, 2) if b else rng.choice([0, 0, -1]) for b in bs]})
         for _ in range(3):
             kk = rng.randint(1, 3)
             ss, es = [], []
@@ -79,7 +82,11 @@ def cases(rng, tier):
             add(a, {"kind": "list", "is": [rng.randint(-n, n - 1) for _ in range(rng.randint(0, 6))]})
         elif r < 0.85:
             p = rng.choice([0.1, 0.5, 0.9])
-            add(a, {"kind": "mask", "bs": [rng.random() < p for _ in range(n)], "rl": rng.random() < 0.7})
+            bs = [rng.random() < p for _ in range(n)]
+            ixm = {"kind": "mask", "bs": bs, "rl": rng.random() < 0.7}
+            if ixm["rl"] and rng.random() < 0.5:
+                ixm["lv"] = [rng.randint(1, 2) if b else rng.choice([0, 0, -1]) for b in bs]
+            add(a, ixm)
         else:
             ss, es = [], []
             for _ in range(rng.randint(1, 5)):
@@ -99,7 +106,7 @@ def nontrivial(p):
 
 def distribution(ps):
     d = rlgen.rl_distribution([p["a"] for p in ps])
-    d["index_kinds"] = gens.hist(p["ix"]["kind"] + ("-rl" if p["ix"].get("rl") else "") for p in ps)
+    d["index_kinds"] = gens.hist(p["ix"]["kind"] + ("-rl" if p["ix"].get("rl") else "") + ("-from-comparison" if "lv" in p["ix"] else "") for p in ps)
     sl = [p["ix"] for p in ps if p["ix"]["kind"] == "slice"]
     d["slice_step_sign"] = gens.hist(("none" if s["k"] is None else ("+" if s["k"] > 0 else "-")) + ("1" if s["k"] in (None, 1, -1) else "k") for s in sl)
     d["slice_bound_out_of_range"] = sum(1 for p in ps if p["ix"]["kind"] == "slice" and any(b is not None and not (-len(p["a"]) <= b <= len(p["a"])) for b in (p["ix"]["a0"], p["ix"]["b0"])))
@@ -129,7 +136,11 @@ def run_impl(p):
             return _rl_result(res, joined=ix["k"] not in (None, 1))
         if k == "mask":
             if ix["rl"]:
-                m = RunLengthArray.from_array(np.array(ix["bs"], dtype=bool))
+                if "lv" in ix:
+                    m = RunLengthArray.from_array(np.array(ix["lv"], dtype=np.int64)) > 0
+                    assert isinstance(m, RunLengthArray) and np.array_equal(m.to_array(), np.array(ix["bs"], dtype=bool))
+                else:
+                    m = RunLengthArray.from_array(np.array(ix["bs"], dtype=bool))
                 return _rl_result(r[m], joined=False)
             return r[np.array(ix["bs"], dtype=bool)]
         if k == "windows":
